@@ -30,29 +30,39 @@ GenNext == NNext /\ hist' = Append(hist, nobs') /\ Ord
 GenSpec == GenInit /\ [][GenNext]_<<nvars, hist, rord, word>>
 \* behaviours are generated with the design's choice of the input mpt_notify_next returns (a recorded behaviour that
 \* differs there is handed to TLC, which accepts any listed input)
-DesignOrder == (nobs'.a = "next" /\ word # <<>>) => cur' = Head(word)
+Pos(q, x) == IF x \in Rng(q) THEN CHOOSE k \in DOMAIN q : q[k] = x ELSE Len(q) + 1
+DesignOrder ==
+  /\ (nobs'.a = "next" /\ word # <<>>) => cur' = Head(word)
+  \* an input removed by another one's next(): served before that iff it precedes it in the ready list
+  /\ (nobs'.a = "wait" /\ KillOn(nobs'.arg.what, nobs'.arg.kill) /\ nobs'.arg.kill[2] \in Served(nobs'.arg.what)) =>
+        (nobs'.arg.early = 1) = (Pos(rord, nobs'.arg.kill[2]) < Pos(rord, nobs'.arg.kill[1]))
 RECURSIVE SumTo(_, _)
 SumTo(f, n) == IF n = 0 THEN 0 ELSE f[n] + SumTo(f, n - 1)
 Bound == ntok <= MaxTok /\ SumTo(sent, nin) <= MaxSent
 \* quick: one run over three slices of the state space -- two harness inputs with one message; one library data
 \* input (socket pair, connected socket, FIFO) with two messages; a listener and the connection it accepts
 AllK(S)  == \A i \in 1..nin : ik[i] \in S
-SliceQ == \/ AllK({"h"}) /\ SumTo(sent, nin) <= 1
-          \/ AllK({"s", "c", "f"}) /\ nin <= 1 /\ SumTo(sent, nin) <= 2
-          \/ AllK({"l", "o", "c"}) /\ (\A i \in 1..nin : ik[i] = "c" => i > 1) /\ SumTo(sent, nin) <= 1
+SliceQ == \/ AllK({"h"}) /\ SumTo(sent, nin) <= 1 /\ ~dir
+          \/ AllK({"s", "c", "f", "p"}) /\ nin <= 1 /\ SumTo(sent, nin) <= 2
+          \/ AllK({"l", "o", "c"}) /\ (\A i \in 1..nin : ik[i] = "c" => i > 1) /\ SumTo(sent, nin) <= 1 /\ ~dir
 BoundQ == ntok <= MaxTok /\ SliceQ
 \* thorough: harness and socket-pair inputs mixed; connected sockets and FIFOs mixed; a listener with what it accepts
-SliceT == AllK({"h", "s"}) \/ AllK({"c", "f"}) \/ AllK({"l", "o", "c"})
+SliceT == \/ AllK({"h", "s"}) /\ ~dir
+          \/ AllK({"c", "f", "p"}) /\ (nin <= 1 \/ ~dir)
+          \/ AllK({"l", "o", "c"}) /\ ~dir
 BoundT == Bound /\ SliceT
-Skel  == <<att, ik, reg, word, cur,
-           [i \in 1..nin |-> <<Len(wire[i]), [k \in DOMAIN buf[i] |-> buf[i][k][1]], eof[i], conn[i]>>],
+Skel  == <<att, dir, ik, reg, word, cur,
+           [i \in 1..nin |-> <<Len(wire[i]), [k \in DOMAIN buf[i] |-> SubSeq(buf[i][k], 1, Len(buf[i][k]) - 2)], eof[i], conn[i]>>],
            DOMAIN tab, IF err > 0 THEN 1 ELSE err, def # Zero>>
-SkelQ == <<att, ik, reg, word, cur,
-           [i \in 1..nin |-> <<Len(wire[i]), [k \in DOMAIN buf[i] |-> buf[i][k][1]], eof[i], conn[i]>>],
+SkelQ == <<att, dir, ik, reg, word, cur,
+           [i \in 1..nin |-> <<Len(wire[i]), [k \in DOMAIN buf[i] |-> SubSeq(buf[i][k], 1, Len(buf[i][k]) - 2)], eof[i], conn[i]>>],
            DOMAIN tab>>
-OpsAll == {"refuse", "idle", "unreg", "table", "relist"}
-OpsQ   == {"refuse", "unreg"}
-Emit  == DesignOrder /\ PrintT(<<"BEHAV", ToJson(hist')>>)
+OpsAll == {"refuse", "idle", "unreg", "table", "relist", "kill", "direct"}
+OpsQ   == {"refuse", "unreg", "kill", "direct"}
+\* removal of another input is generated with every harness input answering "list me" (the other answers are
+\* covered without removal)
+KillLean == (nobs'.a = "wait" /\ nobs'.arg.kill[1] # 0) => \A k \in DOMAIN nobs'.arg.rvs : nobs'.arg.rvs[k] = 1
+Emit  == DesignOrder /\ KillLean /\ PrintT(<<"BEHAV", ToJson(hist')>>)
 CTexts == {}
 CHRs   == {<<1, 0>>}
 CHRs2  == {<<1, 0>>, <<-1, 0>>}
